@@ -75,7 +75,7 @@ add("C08", "exploration", "resource monitor (panic / thread CPU / allocated byte
     "An own byte-level image builder (validated byte for byte against the repository's example image) produces well-formed specs whose GUID-table, SEV-metadata and TDVF-metadata fields are replaced by boundary values (0, 1, size+-1, 2^31, 2^32-1, wrapping counts, 2^40..2^64-4096, misalignments), plus directed cases and blind byte edits; every parsing / measuring entry point runs under core.Guard with budgets proportional to the image size (10 s + 2 s/MiB CPU, 256 MiB + 512 B/byte allocation, times the number of measurements requested); panics, budget excess, non-termination and fatal out-of-memory deaths (attributed to the logged case) are violations.",
     TB_GO + " Budgets are at least 7x above the worst legitimate case measured.", "DESIGN.md section 3 C08")
 
-EXT = (" Since it was first built the workload was extended against four rounds of independently seeded property-breaking changes and by an audit of seven recurring blind-spot classes "
+EXT = (" Since it was first built the workload was extended against five rounds of independently seeded property-breaking changes and by an audit of seven recurring blind-spot classes "
        "(caller-kept state, process-wide state, flag combinations, faults other than a clean crash, environment, non-canonical encodings and exact boundaries, sizes not divisible by an internal chunk): DESIGN.md sections 8.3 and 8.6. "
        "The rule text of what actually ran, with the counters, cells and floors showing that each family was exercised, is in the evidence file (coverage.rule / counters / floors); a run in which a family was not exercised is INCONCLUSIVE, not a pass.")
 props = [json.loads(l) for l in open(os.path.join(V, 'properties.jsonl'))]
